@@ -9,6 +9,30 @@ from harness import tlaval, tlc
 from harness.common import WORK
 
 
+class Unavailable(Exception):
+    """The injection point (a private helper of the environment class) does not exist in this tree: the INJ
+    configuration is skipped (an empty trace is recorded), it is neither a violation nor a machinery failure."""
+
+
+def need(obj, *names):
+    for n in names:
+        if not hasattr(obj, n):
+            raise Unavailable(f"{type(obj).__name__ if not isinstance(obj, type) else obj.__name__} has no attribute {n}")
+
+
+def thin(items, limit):
+    if limit and len(items) > limit:
+        step = len(items) / float(limit)
+        return [items[int(k * step)] for k in range(limit)]
+    return items
+
+
+def ep_key(ep):
+    import jax.numpy as jnp
+
+    return jnp.asarray([0, ep], dtype=jnp.uint32)
+
+
 def dump_states(module, cfg, var="s", limit=None, workers=4, timeout=1200):
     wd = os.path.join(WORK, f"inject-{module}-{os.getpid()}")
     os.makedirs(wd, exist_ok=True)
